@@ -806,6 +806,17 @@ func c15Check(c *mc.Ctx, cs *c15Case) {
 		c.Fail("C15/post:"+id, "data handed out by Read after the first error is not part of the payload the digest commits to", input(), "prefix of "+hx(dg.committed)+"; "+expect(), observe())
 		return
 	}
+	// R5: a clean end-of-stream may follow an error (a consumer that retries after a transient
+	// reader failure sees it) only if the complete committed payload has been delivered
+	if o.newErr == nil && o.firstErr != nil && o.firstErr != io.EOF {
+		for _, pe := range o.postErrs {
+			if pe == io.EOF && !bytes.Equal(all, dg.committed) {
+				c.Outcome("VIOLATION clean EOF after an error, payload incomplete")
+				c.Fail("C15/eof-after-error:"+id, "after an error a later Read reported clean end-of-stream although the committed payload was not delivered completely", input(), "an error, or the rest of "+hx(dg.committed), observe())
+				return
+			}
+		}
+	}
 }
 
 // ---- C15/record-size-limit (isolated) ------------------------------------------
